@@ -191,12 +191,27 @@ def rand_metas(rng, n):
     return out
 
 
+def decorate_none(rng, metas):
+    """give some (not all) slices a details / loss_details entry whose value is None (an allowed
+    MetadataValue): `{key: None}` in one slice and the key ABSENT from another must not count as
+    shared. Key names sorting before and after the usual keys put the None-carrying slices before
+    or after the lacking ones in `metadata` order (the fold of common_metadata is order-sensitive)."""
+    import dataclasses
+    for attr in ("details", "loss_details"):
+        if rng.random() < 0.25:
+            key = rng.choice(["aa_flag", "zz_flag", "cohort"])
+            p = rng.choice([0.5, 0.7, 1.0])
+            metas = [dataclasses.replace(m, **{attr: {**getattr(m, attr), key: None}}) if rng.random() < p else m
+                     for m in metas]
+    return metas
+
+
 def make_cells(rng):
     layout = rng.choice(sorted(LAYOUTS))
     n_slices = rng.choice([1, 1, 2, 2, 3, 4])
     kind = rng.choice(["C", "U", "I"])
     same_layout = rng.random() < 0.6
-    metas = rand_metas(rng, n_slices)
+    metas = decorate_none(rng, rand_metas(rng, n_slices))
     fields_pool = rng.sample(gen.FIELDS, rng.randrange(1, 5))
     sample_mode = rng.choice(["scalar", "scalar", "samples", "samples", "mixed", "inconsistent", "size1"])
     rows = LAYOUTS[layout](rng)
@@ -346,8 +361,83 @@ def to_driver(d):
 def correspondence(ctx):
     rng = ctx.rng
     drv = common.Driver("drv_c13")
-    n_tri = 12000 if ctx.thorough else 2000
+    n_tri = 9000 if ctx.thorough else 1500
     reqs, cases = [], []
+    def emit(t, wcells, desc):
+        units = ["month", "day", "timedelta"]
+        if rng.random() < 0.15:
+            units.append(rng.choice(["Months", "DAYS", "weeks", "fortnight"]))
+        for k, v in desc.items():
+            ctx.count(f"tri/{k}={v}")
+        d = impl_dump(t, units)
+        if rng.random() < 0.3:
+            # read everything a second time on the same object, after emptying the containers that the
+            # non-cached accessors returned (dev_lags list, slices dict): the answers must not change
+            ctx.count("stream/accessors read twice")
+            for u in ("month", "day"):
+                st, lst = call(lambda u=u: t.dev_lags(u))
+                if st == "ok":
+                    lst.clear()
+            st, sl = call(lambda: t.slices)
+            if st == "ok":
+                sl.clear()
+            d2 = impl_dump(t, units)
+            if d2 != d:
+                diff = sorted(k for k in d if d[k] != d2.get(k))
+                ctx.fail("accessors give different answers on a second read of the same triangle",
+                         {"cells": wcells, "accessors": diff}, {"first": {k: d[k] for k in diff}, "second": {k: d2[k] for k in diff}})
+            d = d2
+        guards = {"semi": float_ok_semi(t), "lags": float_ok_lags(t)}
+        if not guards["semi"]:
+            ctx.count("guard/month period lengths float-ambiguous (month taxonomy not compared)")
+        if not guards["lags"]:
+            ctx.count("guard/month lags float-ambiguous (month dev_lags / is_regular not compared)")
+        reqs.append({"cells": wcells, "units": units, "impl": to_driver(d)})
+        cases.append((wcells, units, d, desc, guards, w_cells(t.cells)))
+
+    def derive(t):
+        """an operation applied to a triangle whose cached accessors have ALL been read already;
+        returns (name, derived Triangle object) or None"""
+        fields = t.fields
+        evs = t.evaluation_dates
+        ops = ["merge-all", "merge-details", "merge-attr", "split-by-period", "split-by-eval",
+               "derive_fields-const", "derive_fields-fn", "select", "clip", "add", "right_edge", "filter"]
+        name = rng.choice(ops)
+        if name == "merge-all":
+            fn = lambda: t.derive_metadata(risk_basis="Accident", country=None, currency=None,
+                                           reinsurance_basis=None, loss_definition=None,
+                                           per_occurrence_limit=None, details={}, loss_details={})
+        elif name == "merge-details":
+            fn = lambda: t.derive_metadata(details={}, loss_details={})
+        elif name == "merge-attr":
+            attr = rng.choice(["country", "currency", "reinsurance_basis", "loss_definition"])
+            fn = lambda: t.derive_metadata(**{attr: "ZZ"})
+        elif name == "split-by-period":
+            fn = lambda: t.derive_metadata(zz_period=lambda c: c.period_start.toordinal())
+        elif name == "split-by-eval":
+            fn = lambda: t.derive_metadata(zz_year=lambda c: c.evaluation_date.year % 2)
+        elif name == "derive_fields-const":
+            fn = lambda: t.derive_fields(zz_new=1, **({fields[0]: 2.5} if fields and rng.random() < 0.5 else {}))
+        elif name == "derive_fields-fn":
+            fn = lambda: t.derive_fields(zz_cnt=lambda c: len(c.values))
+        elif name == "select":
+            ks = [f for f in fields if rng.random() < 0.5]
+            fn = lambda: t.select(ks)
+        elif name == "clip":
+            fn = (lambda: t.clip(max_eval=rng.choice(evs))) if evs else (lambda: t.clip())
+        elif name == "add":
+            fn = lambda: t + t.derive_metadata(zz_copy=True).select(fields[:1])
+        elif name == "right_edge":
+            fn = lambda: t.right_edge
+        else:
+            keep = {id(c): rng.random() < 0.6 for c in t.cells}
+            fn = lambda: t.filter(lambda c: keep[id(c)])
+        st, out = call(fn)
+        if st != "ok" or not isinstance(out, Triangle):
+            ctx.count(f"derived/{name}/raised")
+            return None
+        return name, out
+
     for i in range(n_tri):
         if rng.random() < 0.02:
             cells, desc = [], {"layout": "empty", "slices": 0, "kind": "-", "samples": "-"}
@@ -356,20 +446,17 @@ def correspondence(ctx):
         st, t = call(Triangle, cells)
         if st != "ok":
             raise common.Infra(f"generator produced cells the constructor refuses: {t} {desc}")
-        units = ["month", "day", "timedelta"]
-        if rng.random() < 0.15:
-            units.append(rng.choice(["Months", "DAYS", "weeks", "fortnight"]))
-        for k, v in desc.items():
-            ctx.count(f"tri/{k}={v}")
-        d = impl_dump(t, units)
-        guards = {"semi": float_ok_semi(t), "lags": float_ok_lags(t)}
-        if not guards["semi"]:
-            ctx.count("guard/month period lengths float-ambiguous (month taxonomy not compared)")
-        if not guards["lags"]:
-            ctx.count("guard/month lags float-ambiguous (month dev_lags / is_regular not compared)")
-        wcells = w_cells(cells)
-        reqs.append({"cells": wcells, "units": units, "impl": to_driver(d)})
-        cases.append((wcells, units, d, desc, guards, w_cells(t.cells)))
+        emit(t, w_cells(cells), desc)
+        # SEQUENCE stream: every cached accessor of `t` has now been read. Apply an operation to that
+        # very object and check the accessors of the OUTPUT object against the model applied to the
+        # output's cells (a cache carried over from the input would be stale).
+        if t.cells and rng.random() < 0.35:
+            got = derive(t)
+            if got is not None:
+                name, out = got
+                ctx.count(f"derived/{name}")
+                emit(out, w_cells(out.cells), {"layout": f"derived:{name}", "slices": len(out.slices),
+                                               "kind": desc["kind"], "samples": desc["samples"]})
 
     outs = drv.run(reqs)
 
@@ -465,7 +552,10 @@ if __name__ == "__main__":
              "layouts {regular, one off-grid lag, unequal period lengths, dropped periods, touching/adjacent/one-day "
              "overlap, overlapping/nested, calendar months, equal-day periods, several evaluations in one month, "
              "day-level}, same or different layout per slice, mixed field coverage, scalar / sample / mixed / "
-             "inconsistent-size / size-1 values; units month, day, timedelta (+ aliases and unrecognised units). "
+             "inconsistent-size / size-1 values, None-valued detail entries present in some slices only; units month, day, "
+             "timedelta (+ aliases and unrecognised units); sequence stream: accessors read twice on one object, and "
+             "accessors of triangles DERIVED (derive_metadata merging/splitting slices, derive_fields, select, clip, +, "
+             "right_edge, filter) from an object whose cached accessors were all read before. "
              "distinct = distinct canonical cell dump; non-trivial = more than one cell",
         assumptions=["month lags and month period lengths are IEEE doubles in the implementation: implementation lags "
                      "are matched to the exact rational within relative 2^-40, and month-unit dev_lags / is_semi_regular "
